@@ -12,7 +12,14 @@ pub mod synth;
 pub mod voicegen;
 pub mod voiceread;
 pub mod mon;
+#[cfg(feature = "all")]
 pub mod pollute;
+/// (a build with a single monitor is the fallback for trees whose public API changed: nothing
+/// outside that monitor may depend on the API, so the unrelated objects stay away)
+#[cfg(not(feature = "all"))]
+pub mod pollute {
+    pub fn other_objects_render(_repo: &std::path::Path, _salt: u64) {}
+}
 
 #[global_allocator]
 static GLOBAL: alloc::Counting = alloc::Counting;
